@@ -60,16 +60,14 @@ def wedge_oracle(ix: Index, scn: dict) -> list[Violation]:
             # an attempt of another caller that is still running on a connection that has not been closed
             busy = [k for k, o in inflight.items() if o.conn is not None and conn_state.get(o.conn) not in (None, "CLOSED", "CONNECTED")]
             op_model = {"idle": idle, "alive": alive, "state": st, "busy": busy}
-            op.__dict__ if False else None
-            setattr_ok = True
             MODEL[id(op)] = op_model
             if op.do in PHASE:
-                inflight[(op.actor, op.i)] = op
+                inflight[op.s0] = op
         elif kind == "op_end":
             op = ops_by_end.get(seq)
             if op is None:
                 continue
-            inflight.pop((op.actor, op.i), None)
+            inflight.pop(op.s0, None)
             m = MODEL.pop(id(op), None)
             if m is None:
                 continue
@@ -82,6 +80,13 @@ def wedge_oracle(ix: Index, scn: dict) -> list[Violation]:
                     out.append(Violation("accepted-while-alive", op.do, f"{op.actor}[{op.i}] {op.do}() was not refused although a session was alive"))
                 elif m["busy"] and not already:
                     out.append(Violation("accepted-while-attempt-in-progress", op.do, f"{op.actor}[{op.i}] {op.do}() was not refused although the attempt {m['busy'][0]} of another caller was still in progress (its connection was {m['state']})"))
+            elif op.do == "unsub":
+                # an unsubscribe handle of an earlier session is no request: it need not raise, but it must not write to a
+                # connection that carries no authenticated session (a newer attempt still in its hello/login phase)
+                if not m["alive"] and any(op.s0 < s < op.s1 for s in writes_by_seq) and ix.seq_turn[op.s0] == ix.seq_turn[op.s1]:
+                    out.append(Violation("unsub-wrote-without-session", str(m["state"]), f"{op.actor}[{op.i}] unsubscribe handle wrote to the transport while no authenticated session was alive (connection state {m['state']})"))
+                elif not op.ok and not (op.err or {}).get("api") and not op.cancelled:
+                    out.append(Violation("work-error-class", f"unsub:{(op.err or {}).get('cls')}", f"{op.actor}[{op.i}] unsubscribe handle raised {(op.err or {}).get('cls')}: {(op.err or {}).get('text')}"))
             elif op.do in WORK:
                 if not m["alive"]:
                     if op.ok:
@@ -103,6 +108,7 @@ def gen_c19(rng: random.Random) -> dict:
     if rng.random() < 0.2:
         device["invalid_password"] = True
     steps: list[dict] = []
+    tags: list[str] = []
     n = rng.randint(3, 12)
     for _ in range(n):
         r = rng.random()
@@ -116,6 +122,12 @@ def gen_c19(rng: random.Random) -> dict:
             steps.append({"do": "disconnect", "force": rng.random() < 0.4})
         elif r < 0.74:
             steps.append({"do": "sleep", "d": pick(rng, [0.0, 0.01, 0.5, 6.0])})
+        elif r < 0.8 and rng.random() < 0.5:
+            # subscriptions with an unsubscribe handle; the handles are used later, often after their session has gone
+            tags.append(f"t{len(tags)}")
+            steps.append({"do": "sub", "kind": pick(rng, ["ble_adv", "ble_raw", "voice", "ble_free"]), "tag": tags[-1]})
+        elif r < 0.84 and tags:
+            steps.append({"do": "unsub", "tag": tags.pop(rng.randrange(len(tags)))})
         else:
             if rng.random() < 0.4:
                 c = pick(rng, CMDS)
@@ -156,7 +168,21 @@ def gen_c19(rng: random.Random) -> dict:
         t_on = rng.random() * 2.0
         events.append({"at": {"t": t_on}, "do": "fault", "kind": "knob", "name": "sock_fail", "value": pick(rng, ["nodelay", "getpeername"])})
         events.append({"at": {"t": t_on + pick(rng, [0.01, 0.5, 2.0])}, "do": "fault", "kind": "knob", "name": "sock_fail", "value": None})
-    actors = [{"id": "a0", "at": {"t": 0.0}, "steps": steps}, {"id": "closer", "at": "manual", "steps": [{"do": "disconnect"}]}, {"id": "second", "at": "manual", "steps": [{"do": pick(rng, ["start", "connect"]), "login": False}, {"do": "sleep", "d": 0.5}, {"do": pick(rng, ["start", "device_info"])}]}]
+    worker_steps: list[dict] = []
+    if rng.random() < 0.25:
+        # another part of the application keeps issuing work while a connect attempt of the same client is between its
+        # stages (socket open, frame layer ready, hello/login outstanding): slow hello/login answers open those windows
+        slow = pick(rng, [0.3, 2.0])
+        device.setdefault("replies", {})[pick(rng, ["HelloRequest", "ConnectRequest"])] = [pick(rng, ["silent", {"default": True, "delay": slow}]), {"default": True, "delay": slow}]
+        for _ in range(rng.randint(1, 4)):
+            c = pick(rng, CMDS)
+            worker_steps.append(pick(rng, [{"do": "cmd", "name": c["name"], "kwargs": dict(c["kwargs"])}, {"do": "cmd", "name": "send_voice_assistant_audio", "kwargs": {"data": "0102"}}, {"do": "switch_command", "key": 1, "state": True}, {"do": "device_info"}, {"do": "subscribe_states"}]))
+            if tags and rng.random() < 0.5:
+                worker_steps.append({"do": "unsub", "tag": tags.pop(rng.randrange(len(tags)))})
+            worker_steps.append({"do": "sleep", "d": pick(rng, [0.0, 0.01, 0.2])})
+        for _ in range(rng.randint(1, 3)):
+            events.append({"at": {"on": "state", "match": {"new": pick(rng, ["SOCKET_OPENED", "HANDSHAKE_COMPLETE", "HANDSHAKE_COMPLETE"])}, "nth": rng.randint(1, 3), "delay": pick(rng, [0.0, 0.001, 0.05, 0.25])}, "do": "start_actor", "actor": "worker", "phase": pick(rng, ["pre", "post"])})
+    actors = [{"id": "a0", "at": {"t": 0.0}, "steps": steps}, {"id": "worker", "at": "manual", "steps": worker_steps}, {"id": "closer", "at": "manual", "steps": [{"do": "disconnect"}]}, {"id": "second", "at": "manual", "steps": [{"do": pick(rng, ["start", "connect"]), "login": False}, {"do": "sleep", "d": 0.5}, {"do": pick(rng, ["start", "device_info"])}]}]
     extra: dict = {}
     if rng.random() < 0.25:
         # the application reconnects from inside its stop callback, at once or after yielding to the loop
